@@ -1,4 +1,5 @@
 import NA.Model.MergeConf
+import NA.Model.MergeCisco
 import NA.Core.IOUtil
 /-! Driver for C18: one `loadSpoc` case per line on the model.
 
@@ -99,8 +100,103 @@ def answer (line : String) : String :=
     | _, _, _, _ => "bad-input"
   | _ => "bad-input"
 
+/-! ### Op `cisco3`: the general model of cisco MergeSpoc on dumped command tables
+
+Input : `cisco3 <TAB> v4 <TAB> v6 <TAB> raw`; a table is a list of records joined by U+001C, a record has the
+        fields (joined by U+001D) `T|S, prefix, key, typPrefix, parsed, name, seq, flags, refs`;
+        `S` records are the subcommands of the preceding `T` record; flags = append, anchor, simple as 0/1;
+        refs = `refPrefix U+001F name` joined by U+001E.
+Output: `ok <TAB> table <TAB> warnings joined by U+001E` (prefixes and names sorted) or `err <kind> <args>`. -/
+namespace G
+open NA.C18.G
+
+def fs : String := "\x1c"
+def gs : String := "\x1d"
+def rs : String := "\x1e"
+def us : String := "\x1f"
+
+structure Rec9 where
+  top : Bool
+  pfx : String
+  key : String
+  cmd : Cmd
+
+def parseRefs (s : String) : List String × List String :=
+  let items := if s.isEmpty then [] else s.splitOn rs
+  let pairs := items.map (fun it => match it.splitOn us with
+    | [p, n] => (p, n)
+    | _ => ("?", it))
+  (pairs.map (·.2), pairs.map (·.1))
+
+def parseRec (s : String) : Option Rec9 :=
+  match s.splitOn gs with
+  | [k, pfx, key, tp, parsed, name, seq, flags, refs] =>
+    let (ref, refPrefix) := parseRefs refs
+    let fl := flags.toList
+    some { top := k == "T", pfx, key,
+           cmd := { typPrefix := tp, parsed, name, seq := seq.toNat?.getD 0, ref, refPrefix,
+                    app := fl.getD 0 '0' == '1', anchor := fl.getD 1 '0' == '1', simple := fl.getD 2 '0' == '1' } }
+  | _ => none
+
+def toSub (c : Cmd) : Sub :=
+  { parsed := c.parsed, name := c.name, seq := c.seq, ref := c.ref, refPrefix := c.refPrefix, app := c.app }
+
+/-- Records (in dump order) to a table; commands of one key keep their order. -/
+def buildTbl (recs : List Rec9) : Tbl :=
+  let step := fun (acc : Tbl × Option (String × String)) (r : Rec9) =>
+    let (t, cur) := acc
+    if r.top then
+      (t.set r.pfx r.key (t.get r.pfx r.key ++ [r.cmd]), some (r.pfx, r.key))
+    else match cur with
+      | none => (t, cur)
+      | some (p, k) =>
+        let l := t.get p k
+        match l.getLast? with
+        | none => (t, cur)
+        | some last => (t.set p k (l.dropLast ++ [{ last with sub := last.sub ++ [toSub r.cmd] }]), cur)
+  (recs.foldl step ([], none)).1
+
+def parseTbl (s : String) : Option Tbl :=
+  if s.isEmpty then some [] else ((s.splitOn fs).mapM parseRec).map buildTbl
+
+def b2c (b : Bool) : String := if b then "1" else "0"
+
+def encRefs (ref refPrefix : List String) : String :=
+  rs.intercalate ((ref.zip (refPrefix ++ List.replicate ref.length "?")).map (fun p => p.2 ++ us ++ p.1))
+
+def encTbl (t : Tbl) : String :=
+  let recs := t.keys.flatMap (fun k =>
+    (t.get k.1 k.2).flatMap (fun c =>
+      gs.intercalate ["T", k.1, k.2, c.parsed, c.name, toString c.seq, b2c c.app, encRefs c.ref c.refPrefix] ::
+      c.sub.map (fun s => gs.intercalate ["S", "", "", s.parsed, s.name, toString s.seq, b2c s.app, encRefs s.ref s.refPrefix])))
+  fs.intercalate recs
+
+def showErr : NA.C18.G.Err → String
+  | .onlyOnce p n => s!"err onlyOnce {p}{us}{n}"
+  | .nameClash p n => s!"err nameClash {p}{us}{n}"
+  | .notSupported p => s!"err notSupported {p}"
+  | .missingPeer n q => s!"err missingPeer {n}{us}{q}"
+  | .panic => "err panic"
+  | .depth => "err depth"
+  | .unmodelled => "err unmodelled"
+
+def answer (f4 f6 fr : String) : String :=
+  match parseTbl f4, parseTbl f6, parseTbl fr with
+  | some v4, some v6, some raw =>
+    match loadSpoc v4 v6 raw with
+    | .ok (t, w) => s!"ok\t{encTbl t}\t{rs.intercalate w}"
+    | .error e => showErr e
+  | _, _, _ => "bad-input"
+
+end G
+
+def answerAny (line : String) : String :=
+  match line.splitOn "\t" with
+  | ["cisco3", f4, f6, fr] => G.answer f4 f6 fr
+  | _ => answer line
+
 end NA.Drv.C18
 
 def main (_ : List String) : IO UInt32 := do
-  NA.IOUtil.eachLine NA.Drv.C18.answer
+  NA.IOUtil.eachLine NA.Drv.C18.answerAny
   return 0
